@@ -582,7 +582,9 @@ class IntermediateCodeGen(AbstractCodeGen):
     def genConceptualTable(self, data):
         row = data[0]
 
-        if row[1] and row[1][-2:] == '()':
+        # (a row type the symbol table knows under another name comes back
+        # from genRow() as a syntax dictionary, not as a string)
+        if row[1] and not isinstance(row[1], dict) and row[1][-2:] == '()':
             row = row[1][:-2]
             self._rows.add(row)
 
